@@ -37,3 +37,31 @@ package auth
 //@   ensures @admit-info result.2 == 0 ==> result.0 == ti && result.1 == ""
 //@   ensures @reject-status result.2 != 0 ==> result.0 == nil && result.2 == statusFor(wellFormed(h), ve, ti, scopesOK(opts, ti))
 //@   loop 1: invariant forall j int :: 0 <= j && j < $idx ==> has(ti.Scopes, opts.Scopes[j])
+
+// C14 (middleware): the inner handler runs iff verify admits (exactly once, with the request whose context
+// carries exactly verify's TokenInfo under tokenInfoKey); otherwise http.Error gets verify's status and the
+// handler does not run; a Bearer challenge is added on 401/403 exactly when there is something to put in it.
+//@ func RequireBearerToken$1$1 [C14]
+//@   track verify
+//@   track handler.ServeHTTP as serve
+//@   track http.Error as httpError
+//@   track Add as addHeader
+//@   track context.WithValue as withValue
+//@   track WithContext as withCtx
+//@   track fmt.Sprintf as sp
+//@   ghost code := callResult(verify, 1, 2)
+//@   ghost ti := callResult(verify, 1, 0)
+//@   ghost challengeable := (code == 401 || code == 403) && opts != nil && (old(opts.ResourceMetadataURL) != "" || old(len(opts.Scopes)) > 0)
+//@   requires r != nil
+//@   ensures @verify-once calls(verify) == 1 && callArg(verify, 1, 0) == r && callArg(verify, 1, 1) == verifier && callArg(verify, 1, 2) == opts
+//@   ensures @reject code != 0 ==> calls(serve) == 0 && calls(httpError) == 1 && callArg(httpError, 1, 0) == w && callArg(httpError, 1, 2) == code
+//@   ensures @admit code == 0 ==> calls(httpError) == 0 && calls(addHeader) == 0 && calls(serve) == 1 && callArg(serve, 1, 0) == handler && callArg(serve, 1, 1) == w
+//@   ensures @admit-context code == 0 ==> callArg(serve, 1, 2) == callResult(withCtx, 1, 0) && callArg(withCtx, 1, 0) == r
+//@                && callArg(withCtx, 1, 1) == callResult(withValue, 1, 0) && typeIs(callArg(withValue, 1, 1), tokenInfoKey) && callArg(withValue, 1, 2) == iface(ti)
+//@   ensures @challenge challengeable ==> calls(addHeader) == 1 && callArg(addHeader, 1, 1) == "WWW-Authenticate" && hasPrefix(callArg(addHeader, 1, 2), "Bearer ")
+//@   ensures @no-challenge !challengeable ==> calls(addHeader) == 0
+//@   ensures @challenge-params challengeable ==>
+//@                (old(opts.ResourceMetadataURL) != "" ==> callArg(sp, 1, 0) == "resource_metadata=%q")
+//@                && (old(opts.ResourceMetadataURL) == "" ==> callArg(sp, 1, 0) == "scope=%q" && calls(sp) == 1)
+//@                && (old(opts.ResourceMetadataURL) != "" && old(len(opts.Scopes)) > 0 ==> callArg(sp, 2, 0) == "scope=%q" && calls(sp) == 2)
+//@                && (old(len(opts.Scopes)) == 0 ==> calls(sp) == 1)
